@@ -225,6 +225,24 @@ func runHistory(base string, idx int, c config, hist []step) (what string, incon
 			}
 			_ = os.Remove(p)
 			delete(w.dirs, st.Path)
+		case "dir-to-file":
+			// the name never disappears between two polls: a directory one
+			// poll, a regular file the next
+			if !w.dirs[st.Path] {
+				continue
+			}
+			_ = os.Remove(p)
+			_ = os.WriteFile(p, []byte("old\n"), 0o644)
+			delete(w.dirs, st.Path)
+			w.files[st.Path] = true
+		case "file-to-dir":
+			if !w.files[st.Path] {
+				continue
+			}
+			_ = os.Remove(p)
+			_ = os.Mkdir(p, 0o755)
+			delete(w.files, st.Path)
+			w.dirs[st.Path] = true
 		}
 		// let streams on vanished paths notice and end before the next poll
 		streamW.Broadcast()
@@ -261,7 +279,7 @@ func runHistory(base string, idx int, c config, hist []step) (what string, incon
 func TestC18(t *testing.T) {
 	r := ev.Start(t, "C18", "exploration")
 	defer r.Finish()
-	r.Rule("tree of 2 directories x 4 names (+ directories with matching names); 1-3 overlapping patterns from {d0/*.log, d0/a*, */x.log, d1/a.log, */*.log, d?/b.log}, absolute or relative (the process chdirs into the tree), optional ignore regex from {^b, \\.txt$, log}; histories over {create, delete, rename to a matching / non-matching name, mkdir with a matching name, rmdir}: every history of length <=2 (quick) / <=3 (thorough) over a reduced step set for three fixed configurations, plus random length-10/15 histories with random configurations. After each step + pattern poll + stream barrier a unique probe line is appended to every file; at the end every probe of a file in the model's expected set must have been delivered exactly once, every other probe never; log_count must equal the expected set's size after every step. Non-trivial: history in which the expected set changed at least twice; distinct by (config, history).")
+	r.Rule("tree of 2 directories x 4 names (+ directories with matching names); 1-3 overlapping patterns from {d0/*.log, d0/a*, */x.log, d1/a.log, */*.log, d?/b.log}, absolute or relative (the process chdirs into the tree), optional ignore regex from {^b, \\.txt$, log}; histories over {create, delete, rename to a matching / non-matching name, mkdir with a matching name, rmdir, directory replaced by a file of the same name and back within one step}: every history of length <=2 (quick) / <=3 (thorough) over a reduced step set for three fixed configurations, plus random length-10/15 histories with random configurations. After each step + pattern poll + stream barrier a unique probe line is appended to every file; at the end every probe of a file in the model's expected set must have been delivered exactly once, every other probe never; log_count must equal the expected set's size after every step. Non-trivial: history in which the expected set changed at least twice; distinct by (config, history).")
 	r.Assume("reference matcher = path/filepath.Match applied to model paths (independent of Glob's filesystem walk)", "a step is followed by a stream wake so that streams on vanished paths end before the next pattern poll")
 	base, _ := os.MkdirTemp(ev.Scratch(), "c18")
 	defer os.RemoveAll(base)
@@ -280,6 +298,7 @@ func TestC18(t *testing.T) {
 		{Op: "delete", Path: "d0/a.log"}, {Op: "delete", Path: "d0/b.log"},
 		{Op: "rename", Path: "d0/a.log", To: "d0/b.log"}, {Op: "rename", Path: "d0/a.log", To: "d0/a.txt"}, {Op: "rename", Path: "d1/a.txt", To: "d1/a.log"}, {Op: "rename", Path: "d0/b.log", To: "d0/a.log"},
 		{Op: "mkdir", Path: "d0/c.log"}, {Op: "rmdir", Path: "d0/c.log"}, {Op: "create", Path: "d0/a.log"},
+		{Op: "dir-to-file", Path: "d0/c.log"}, {Op: "file-to-dir", Path: "d0/b.log"}, {Op: "dir-to-file", Path: "d0/b.log"},
 	}
 	maxLen := ev.Pick(2, 3)
 	var rec func(p []step, c config)
@@ -312,7 +331,11 @@ func TestC18(t *testing.T) {
 		for k := 0; k < ev.Pick(10, 15); k++ {
 			d := ev.PickOne(g, dirs)
 			n := ev.PickOne(g, names)
-			switch g.Intn(7) {
+			switch g.Intn(9) {
+			case 7:
+				h = append(h, step{Op: "dir-to-file", Path: d + "/" + ev.PickOne(g, []string{"c.log", "x.log"})})
+			case 8:
+				h = append(h, step{Op: "file-to-dir", Path: d + "/" + ev.PickOne(g, []string{"c.log", "x.log", n})})
 			case 0, 1:
 				h = append(h, step{Op: "create", Path: d + "/" + n})
 			case 2:
